@@ -223,6 +223,117 @@ def layout_probes():
     return probes
 
 
+# ------------------------------------------------------------------------------------------ chains (spec/gen/Chains.tla)
+def render_chain(c):
+    """Files of one Chains.tla state.  Link i (0..len) is named <prefix><i>; link i > 0 is defined in terms of link i - 1; a file
+    that holds link i and not link i - 1 reaches it by the state's style: named `import { K0 } from "./m0"`, ns `import * as M0`
+    + `M0.K0`, renamed `import { K0 as P0 }` + `P0`, hub `import { K0 } from "./hub"` with hub.ts re-exporting every file by
+    `export *`.  Files are m<i>.ts (i = index of the first link they hold), so files of one layout have the same text shape."""
+    n, kind, style = c["len"], c["kind"], c["style"]
+    fof = c["files"]            # file tag of link i: "entry" or the index of the file's first link
+
+    def pref(i):
+        if kind in ("const", "constprop", "tupconst"):
+            return "K"
+        if kind == "enumconst":
+            return "E" if i == 0 else "K"
+        return {"alias": "A", "iface": "I", "generic": "G"}[kind]
+
+    def name(i):
+        return f"{pref(i)}{i}"
+
+    imports = {}                # file -> list of import lines
+
+    def ref(frm, j):
+        """how file `frm` mentions link j"""
+        f = fof[j]
+        if f == frm:
+            return name(j)
+        mod = "./hub" if style == "hub" else f"./m{f}"
+        if style == "ns":
+            line, r = f'import * as M{f} from "./m{f}";', f"M{f}.{name(j)}"
+        elif style == "renamed":
+            line, r = f'import {{ {name(j)} as P{j} }} from "./m{f}";', f"P{j}"
+        else:
+            line, r = f'import {{ {name(j)} }} from "{mod}";', name(j)
+        if line not in imports.setdefault(frm, []):
+            imports[frm].append(line)
+        return r
+
+    def decl(i):
+        f = fof[i]
+        ex = "" if f == "entry" else "export "
+        r = ref(f, i - 1) if i > 0 else None
+        if kind == "const":
+            return f'{ex}const K{i} = ' + ('{ tag: "k", n: 1 } as const;' if i == 0 else f"{r};")
+        if kind == "constprop":
+            return f'{ex}const K{i} = ' + ('{ tag: "k", n: 1 } as const;' if i == 0 else f"{{ prev: {r}, n: {i} }} as const;")
+        if kind == "tupconst":
+            return f'{ex}const K{i} = ' + ('"k0" as const;' if i == 0 else f"[{r}, {i}] as const;")
+        if kind == "enumconst":
+            if i == 0:
+                return f'{ex}enum E0 {{ P = "p", Q = "q" }}'
+            return f"{ex}const K{i} = " + (f"{r}.P;" if i == 1 else f"{r};")
+        if kind == "alias":
+            return f"{ex}type A{i} = " + ('{ tag: "k"; n: 1 };' if i == 0 else f"{r};")
+        if kind == "iface":
+            return f"{ex}interface I{i} " + ("{ p0: string }" if i == 0 else f"extends {r} {{ p{i}: number }}")
+        if kind == "generic":
+            return f"{ex}type G{i}<X> = " + ("X[];" if i == 0 else f"{{ v: {r}<X> }};")
+        raise ToolError(f"unknown chain kind {kind}")
+
+    decls = {}
+    for i in range(n + 1):
+        decls.setdefault(fof[i], []).append(decl(i))
+    last = ref("entry", n)
+    root = {"alias": last, "iface": last, "generic": f"{last}<string>"}.get(kind, f"typeof {last}")
+    files = []
+    body = "\n".join(imports.get("entry", []) + decls.get("entry", []) + [f"type T = {root};", "parse.buildParsers<{ T: T }>();"]) + "\n"
+    files.append(("entry.ts", body))
+    fs = sorted(f for f in decls if f != "entry")
+    for f in fs:
+        files.append((f"m{f}.ts", "\n".join(imports.get(f, []) + decls[f]) + "\n"))
+    if style == "hub":
+        files.append(("hub.ts", "".join(f'export * from "./m{f}";\n' for f in fs)))
+    return files
+
+
+def chain_probes():
+    S = lambda x: {"k": "str", "s": x}
+    N = lambda x: {"k": "num", "n": str(x)}
+    O = lambda **kw: {"k": "obj", "c": "plain", "ps": [{"key": k, "v": v} for k, v in kw.items()]}
+    A = lambda *xs: {"k": "arr", "es": list(xs)}
+    k0 = O(tag=S("k"), n=N(1))
+    ps = [S("p"), S("q"), S("k0"), N(1), {"k": "null"}, k0, O(tag=S("k"), n=N(2)), O(tag=S("x"), n=N(1)), O(tag=S("k")),
+          A(S("a")), A(N(1)), A()]
+    prev, tup, gen, ifc = k0, S("k0"), A(S("a")), {"p0": S("s")}
+    for i in range(1, 5):
+        prev = O(prev=prev, n=N(i))
+        tup = A(tup, N(i))
+        gen = O(v=gen)
+        ifc = dict(ifc, **{f"p{i}": N(i)})
+        bad_ifc = dict(ifc, **{f"p{i}": S("no")})
+        ps += [prev, O(prev=prev["ps"][0]["v"], n=N(i + 1)), tup, A(tup["es"][0], N(i + 1)), gen, O(v=O(v=N(1))),
+               O(**ifc), O(**bad_ifc), O(**{k: v for k, v in ifc.items() if k != "p0"})]
+    return ps
+
+
+def chain_projects(d):
+    cfg = os.path.join(d, "MC_Chains.cfg")
+    vlib.write_cfg(cfg, spec="CSpec", invariants=["CrossesBoundary", "EmitInv"])
+    r = vlib.run_tlc(cfg, os.path.join(vlib.VERIF, "spec/mc/MC_Chains.tla"), workers=4, heap="2g", tag="chains")
+    if not r["ok"]:
+        raise ToolError("chain generation failed:\n" + r["tail"])
+    cs = vlib.tagged_lines(r["lines"], "CHAIN")
+    if len(cs) != r["distinct"]:
+        raise ToolError(f"chain generation: {len(cs)} lines for {r['distinct']} states")
+    for c in cs:
+        c["files"] = [x if x == "entry" else int(x[1:]) for x in c["files"]]
+    # group by (len, kind), the single-file layout first (it is the reference of its group)
+    cs.sort(key=lambda c: (c["len"], c["kind"], c["split"] != "single", c["split"], c["style"]))
+    return cs, r
+
+
 def run(prop, tier):
     t0 = time.time()
     vlib.build()
@@ -252,9 +363,18 @@ def run(prop, tier):
     projects.insert(0, base)
     log(f"[C09] {len(layouts)} layouts, {len(projects)} distinct projects")
     probes = layout_probes()
+    # chains of declarations over files of identical shape (Chains.tla): groups appended after the layouts, each with its own reference
+    chains, cr = chain_projects(d)
+    nlay = len(projects)
+    for c in chains:
+        projects.append({"layout": {"steps": 0 if c["split"] == "single" else 1, "expected": "same-as-single-file", "chain": c},
+                         "files": render_chain(c)})
+    cprobes = chain_probes()
+    log(f"[C09] + {len(chains)} chain projects")
     reqs = [vlib.compile_req(i, p["files"]) for i, p in enumerate(projects)]
     comp = vlib.compile_all(reqs)
-    jobs = [{"id": i, "code": r["code"], "root": "T", "probes": probes, "ops": ["validate", "hash"]} for i, r in enumerate(comp) if r["outcome"] == "code"]
+    jobs = [{"id": i, "code": r["code"], "root": "T", "probes": probes if i < nlay else cprobes, "ops": ["validate", "hash"]}
+            for i, r in enumerate(comp) if r["outcome"] == "code"]
     obs = vlib.run_driver(jobs, tag)
     recs = []
     for i, (p, r) in enumerate(zip(projects, comp)):
@@ -283,6 +403,20 @@ def run(prop, tier):
         r = recs[j["line"] - 1]
         p = projects[r["id"]]
         L = p["layout"]
+        if "chain" in L:
+            c = L["chain"]
+            sig = (j["kind"], c["kind"], c["style"], c["split"])
+            if sig in seen or len(violations) >= 30:
+                continue
+            seen.add(sig)
+            grp = next(q for q in projects[nlay:] if q["layout"]["chain"]["len"] == c["len"] and q["layout"]["chain"]["kind"] == c["kind"]
+                       and q["layout"]["chain"]["split"] == "single")
+            payload = {"property": prop, "complaint": j["kind"], "chain": c, "files": p["files"], "single_file_program": grp["files"],
+                       "compile": {k: v for k, v in comp[r["id"]].items() if k != "code"}, "observed": {k: r[k] for k in ("vec", "h256")}}
+            violations.append((vlib.write_replay(prop, f"{tier}-{len(violations)}", payload),
+                               f"{j['kind']}: chain len={c['len']} kind={c['kind']} split={c['split']} style={c['style']} :: "
+                               f"{json.dumps(comp[r['id']].get('diags', comp[r['id']].get('msg', '')))[:200]}"))
+            continue
         sig = (j["kind"], json.dumps(comp[r["id"]].get("diags", ""))[:80], tuple(sorted((s["st"]) for s in L["imp"])), tuple(sorted(L["exp"].values())))
         if sig in seen or len(violations) >= 20:
             continue
@@ -296,9 +430,9 @@ def run(prop, tier):
     oc = {}
     for r in recs:
         oc[r["outcome"]] = oc.get(r["outcome"], 0) + 1
-    cov = {"states": gr["distinct"] + tstates, "transitions": gr["states"] + consumed, "traces_validated_against_impl": consumed,
+    cov = {"states": gr["distinct"] + cr["distinct"] + tstates, "transitions": gr["states"] + cr["states"] + consumed, "traces_validated_against_impl": consumed,
            "samples": [{"files": projects[len(projects) // 2]["files"], "expected": projects[len(projects) // 2]["layout"]["expected"]}],
-           "layouts": len(layouts), "distinct_projects": len(projects), "max_steps": depth, "outcomes": oc,
+           "layouts": len(layouts), "distinct_projects": nlay, "chain_projects": len(chains), "max_steps": depth, "outcomes": oc,
            "broken_layouts": sum(1 for p in projects if p["layout"]["expected"] == "diagnostic"),
            "binding_selftest": "rejected: hash256-differs-from-single-file-program", "exhaustive": True,
            "rule": f"every layout reachable from the single-file program within {depth} changes (move a declaration, change an export style, change an "
